@@ -337,6 +337,26 @@ def main():
         script.append({"op": "instantiate", "binds": {"mem": 1 if memk == "imported" else 0, "table": 0, "globals": []}})
         script += [{"op": "call", "inst": 1, "export": "peek", "args": [arg("i32", a_)]} for a_ in (9, 10, 19, 41, 65533)]
         items.append({"id": "layers_" + memk, "module": m, "script": script})
+    # a child instance whose imports the resolver answers with OTHER objects than the parent's (a table, a memory, a global of its
+    # own): segments and initialisers are applied to what the child was given, the parent's objects are left as they were
+    cm = {"types": [{"p": ["i32"], "r": ["i32"]}, {"p": [], "r": ["i32"]}],
+          "imports": [{"mod": "env", "name": "tab", "kind": "table", "min": 4, "max": 8}, {"mod": "env", "name": "mem", "kind": "memory", "min": 1, "max": 2},
+                      {"mod": "env", "name": "g", "kind": "global", "t": "i32", "mut": False}],
+          "funcs": [{"type": 0, "locals": [], "body": [["local.get", 0], ["call_indirect", 1, 0], ["end"]]},
+                    {"type": 1, "locals": [], "body": [["i32.const", b32(41)], ["end"]]}, {"type": 1, "locals": [], "body": [["i32.const", b32(42)], ["end"]]},
+                    {"type": 0, "locals": [], "body": [["local.get", 0], ["i32.load8_u", 0, 0], ["end"]]},
+                    {"type": 1, "locals": [], "body": [["global.get", 1], ["end"]]}],
+          "globals": [{"t": "i32", "mut": False, "init": ["global.get", 0]}],
+          "elems": [{"offset": ["i32.const", b32(0)], "funcs": [1, 2]}, {"offset": ["global.get", 0], "funcs": [2]}],
+          "data": [{"mode": "active", "offset": ["i32.const", b32(10)], "bytes": [9, 8]}, {"mode": "active", "offset": ["global.get", 0], "bytes": [5]}],
+          "exports": [{"name": "icall", "kind": "func", "idx": 0}, {"name": "peek", "kind": "func", "idx": 3}, {"name": "getg", "kind": "func", "idx": 4}]}
+    probes = lambda i_: [{"op": "call", "inst": i_, "export": "icall", "args": [arg("i32", k_)]} for k_ in (0, 1, 2, 3)] + \
+                        [{"op": "call", "inst": i_, "export": "peek", "args": [arg("i32", k_)]} for k_ in (2, 3, 10, 11)] + [{"op": "call", "inst": i_, "export": "getg", "args": []}]
+    items.append({"id": "childown", "module": cm,
+                  "script": [{"op": "hosttable", "size": 6}, {"op": "hostmem", "pages": 1, "max": 2, "shared": False}, {"op": "hostglobal", "t": "i32", "b": b32(2)},
+                             {"op": "instantiate", "binds": {"mem": 1, "table": 1, "globals": [1]}}] + probes(1)[:3] +
+                            [{"op": "hosttable", "size": 6}, {"op": "hostmem", "pages": 1, "max": 2, "shared": False}, {"op": "hostglobal", "t": "i32", "b": b32(3)},
+                             {"op": "child", "inst": 1, "binds": {"mem": 2, "table": 2, "globals": [3]}}] + probes(2) + probes(1)})
     # a table and a memory of size zero (declared, empty): instantiated in storage that is not zeroed, released, instantiated again
     for j_, (tmin, mmin) in enumerate(((0, 0), (0, 1), (1, 0))):
         m0 = {"types": [{"p": [], "r": ["i32"]}], "imports": [], "funcs": [{"type": 0, "locals": [], "body": [["memory.size"], ["end"]]}],
